@@ -22,7 +22,7 @@ from typing import Any, Callable, Dict, Iterable, List, Optional, Tuple
 
 VERIF = os.path.dirname(os.path.dirname(os.path.abspath(__file__)))
 REPO = os.path.abspath(os.environ.get("VERIF_REPO", "/repo"))
-LEAN = os.path.join(VERIF, "lean")
+LEAN = os.path.abspath(os.environ.get("VERIF_LEAN_DIR", os.path.join(VERIF, "lean")))   # override: maintenance only (a scratch copy of the project)
 BIN = os.path.join(LEAN, ".lake", "build", "bin")
 ALLOWED_AXIOMS = {"propext", "Classical.choice", "Quot.sound"}
 FORBIDDEN = re.compile(
@@ -340,6 +340,24 @@ def shrink_case(kind: Kind, args: Any, still_fails: Callable[[Any], bool], budge
             except Exception:
                 continue
     return cur
+
+
+def gen_areas(prop: str) -> set:
+    """the generated files (Gen/<Area>.lean) the theorems of a property depend on: the import closure of Props/<prop>.lean"""
+    seen, todo, areas = set(), [f"Switcher.Props.{prop}"], set()
+    while todo:
+        m = todo.pop()
+        if m in seen:
+            continue
+        seen.add(m)
+        path = os.path.join(LEAN, *m.split(".")) + ".lean"
+        if m.startswith("Switcher.Gen."):
+            areas.add(m.split(".")[-1])
+        if not os.path.exists(path):
+            continue
+        for im in re.findall(r"^import\s+(Switcher\.[A-Za-z0-9_.]+)", open(path).read(), re.M):
+            todo.append(im)
+    return areas - {"Missing"}
 
 
 def theorem_names(prop: str) -> List[str]:
